@@ -1,6 +1,5 @@
 import KeepVerif.DriverLib
 import KeepVerif.Model.C39
-import KeepVerif.Model.C39Store
 open KeepVerif
 open KeepVerif.C39
 
@@ -42,7 +41,6 @@ def model (line : String) : String :=
       let (sf, outs, cnts) := run Gen.C39.returnsOnSaveError size ops
       s!"outs={showList (outs.map showOut)} counts={showList cnts} disk={showList sf.disk}"
     | _, _ => "bad-op"
-  | "store" :: rest => C39Store.modelLine rest
   | _ => "bad-op"
 
 def monitor (op obs : String) : String :=
@@ -58,7 +56,6 @@ def monitor (op obs : String) : String :=
         else "FAIL pool-rule"
       | _, _, _ => "FAIL unparsable-observation"
     | _, _ => "FAIL unparsable-observation"
-  | "store" :: rest => C39Store.monitorLine rest obs
   | _ => "FAIL bad-op"
 
 def main (args : List String) : IO UInt32 := driverMain model monitor args
